@@ -104,6 +104,11 @@ AtomOf(a) ==
     [] a = "dotnl" -> Leaf("AnyChar")
     [] a = "empty" -> Leaf("EmptyMatch")
     [] a = "wb"    -> Leaf("WordBoundary")
+    \* anchors INSIDE an expression ( ^a$b$ , ^a^b$ , ^^a$ , ^a$$ ): text that looks like a literal is none
+    [] a = "eot"   -> Leaf("EndText")
+    [] a = "bot"   -> Leaf("BeginText")
+    [] a = "eol"   -> Leaf("EndLine")
+    [] a = "bol"   -> Leaf("BeginLine")
     [] a = "w2"    -> Wide(2)
     [] a = "w50"   -> Wide(50)
     [] a = "w99"   -> Wide(99)
